@@ -37,9 +37,67 @@ func c03Reject(c *engine.Ctx, in []byte, args map[string]string) {
 	}
 }
 
+// c03Flat: a program that repeats one construct n times side by side (no nesting) is derived from the grammar and
+// must be accepted whatever n is. input = one unit; args: n, head, sep, tail
+func c03Flat(c *engine.Ctx, in []byte, args map[string]string) {
+	n, _ := strconv.Atoi(args["n"])
+	var sb strings.Builder
+	sb.WriteString(args["head"])
+	for i := 0; i < n; i++ {
+		if i > 0 {
+			sb.WriteString(args["sep"])
+		}
+		sb.WriteString(strings.ReplaceAll(string(in), "@", strconv.Itoa(i)))
+	}
+	sb.WriteString(args["tail"])
+	if _, err := jsParseCopy([]byte(sb.String()), jsOptions(args["opts"])); err != nil {
+		e := err.Error()
+		if i := strings.IndexByte(e, '\n'); i > 0 {
+			e = e[:i]
+		}
+		c.Fail("flat-program-rejected", fmt.Sprintf("%s%q repeated %d times (separator %q)%s is rejected (opts %s): %s", args["head"], in, n, args["sep"], args["tail"], args["opts"], e))
+	}
+}
+
+var c03Contexts = []string{"%s", "function c(){%s}", "async function c(){%s}", "function* c(){%s}", "async function* c(){%s}", "c = () => {%s};", "c = async () => {%s};",
+	"c = {m(){%s}};", "c = {async *m(){%s}};", "class c{static{%s}}", "for(;;){%s}", "switch(c){case 1:%s}", "if(c){%s}", "c = function(){%s};"}
+
+// c03Sibling: what a finished construct K leaves behind must not influence how the next statement F is parsed: in
+// every context, "K F" and "0; F" are both accepted or both rejected, and F gets the same tree.
+// input = K (valid on its own at the top level); args: ctx, f
+func c03Sibling(c *engine.Ctx, in []byte, args map[string]string) {
+	ci, _ := strconv.Atoi(args["ctx"])
+	o := jsOptions(args["opts"])
+	k, f := string(in), args["f"]
+	kAlone, err := jsParseCopy([]byte(k), o)
+	if err != nil {
+		c.Fail("harness-sibling", fmt.Sprintf("construct %q is not valid on its own: %v", k, err))
+		return
+	}
+	p1 := fmt.Sprintf(c03Contexts[ci], "0;"+f)
+	p2 := fmt.Sprintf(c03Contexts[ci], k+f)
+	a1, e1 := jsParseCopy([]byte(p1), o)
+	a2, e2 := jsParseCopy([]byte(p2), o)
+	if (e1 == nil) != (e2 == nil) {
+		c.Fail("sibling-changes-acceptance", fmt.Sprintf("%q is accepted=%v but %q is accepted=%v (opts %s): a completed construct changes how the following statement is parsed", p1, e1 == nil, p2, e2 == nil, args["opts"]))
+		return
+	}
+	if e1 != nil {
+		c.Count("sibling-both-rejected", 1)
+		return
+	}
+	s1 := strings.Replace(a1.String(), "Stmt(0) ", "", 1)
+	s2 := strings.Replace(a2.String(), kAlone.String()+" ", "", 1)
+	if s1 != s2 {
+		c.Fail("sibling-changes-tree", fmt.Sprintf("%q ⇒ %s but %q ⇒ %s (opts %s): the statement after the construct gets another tree", p1, a1.String(), p2, a2.String(), args["opts"]))
+	}
+}
+
 func c03Setup(c *engine.Ctx) {
 	c.Register(&engine.Space{Name: "js-tree", Run: c03Tree, NoMinimise: true})
 	c.Register(&engine.Space{Name: "js-reject", Run: c03Reject, NoMinimise: true})
+	c.Register(&engine.Space{Name: "js-flat", Run: c03Flat, NoMinimise: true})
+	c.Register(&engine.Space{Name: "js-sibling", Run: c03Sibling, NoMinimise: true})
 }
 
 // ---- statements ----
@@ -645,6 +703,61 @@ func c03Work(c *engine.Ctx) {
 			emitReject(a.src, "`in` where the grammar parameter [In] is off")
 		} else {
 			emitTree(a.src, a.exp, "", false)
+		}
+	}
+	// flat repetition: size without nesting (lists of statements, elements, arguments, properties, members, cases,
+	// bindings, parameters, substitutions; chains of binary or member operators are left out: they are nested in the
+	// grammar's derivation and in the tree, and the documented NestedExprLimit applies to them)
+	flat := c.SpaceByName("js-flat")
+	type flatCase struct{ unit, head, sep, tail string }
+	for _, fc := range []flatCase{
+		{"a=1;", "", "", ""}, {"a=1", "", "\n", ""}, {"1", "x=[", ",", "];"}, {"1", "f(", ",", ");"}, {"k@:1", "x={", ",", "};"}, {"if(1<2)b=3*4", "", "\n", ""},
+		{"a@", "let ", ",", ";"}, {"a@=1", "var ", ",", ";"}, {"case @:;", "switch(x){", "", "}"}, {"m@(){}", "class C{", "", "}"}, {"#p@=1", "class C{", ";", "}"}, {"a", "x=(", ",", ");"},
+		{"${1}", "x=`", "", "`;"}, {"p@", "function f(", ",", "){}"}, {"{}", "", "", ""}, {";", "", "", ""},
+		{"a@=>1", "x=[", ",", "];"}, {"function f@(){}", "", "", ""}, {"[1]", "x=[", ",", "];"}, {"{a:1}", "x=[", ",", "];"}, {"-1", "x=[", ",", "];"}, {"!0", "x=[", ",", "];"}, {"/r/", "x=[", ",", "];"},
+		{"l@:;", "", "", ""}, {"a?.b", "x=[", ",", "];"}, {"new A(1)", "x=[", ",", "];"}, {"import a@ from 'm'", "", "\n", ""}, {"export var e@=1", "", "\n", ""},
+	} {
+		for _, n := range []int{999, 1000, 1001, 2500} {
+			k++
+			if !c.Mine(k) {
+				continue
+			}
+			for _, o := range jsOptionNames {
+				if strings.Contains(fc.unit, "import") || strings.Contains(fc.unit, "export") {
+					if o[1] == '1' {
+						continue
+					}
+				}
+				c.Exec(flat, []byte(fc.unit), map[string]string{"opts": o, "n": strconv.Itoa(n), "head": fc.head, "sep": fc.sep, "tail": fc.tail})
+				c.Count("exec", 1)
+			}
+			c.Count("flat-programs", 1)
+		}
+	}
+	// sibling independence: constructs that switch parser context on and must switch it back
+	sib := c.SpaceByName("js-sibling")
+	constructs := []string{"g = async a => a;", "g = async a => { await a };", "g = async (a) => { await a };", "g = a => a;", "g = (a) => { };", "g = async function(){ await 1 };", "g = function*(){ yield 1 };",
+		"g = async function*(){ yield await 1 };", "g = function(){ return new.target };", "function k(){ return 1 }", "async function k(){ await 1 }", "function* k(){ yield }",
+		"class K { async *m(){ yield await 1 } static { this.x } get p(){ return super.p } }", "g = { async m(){ await 1 }, *n(){ yield 1 }, get p(){ return 1 } };", "for (const z of []) { continue }", "l: for(;;){ break l }",
+		"for (var i = 0 in {};;) ;", "g = `${async a => a}`;", "g = [async a => a, function*(){ yield }];", "do ; while (0)", "switch (g) { case 1: break }", "try { } catch { } finally { }", "if (g) ; else ;", "g = class { static async m(){ await 1 } };"}
+	follow := []string{"await x;", "yield x;", "yield;", "var await;", "var yield;", "await: 1;", "yield: 1;", "for await (x of y);", "return;", "return 1;", "break;", "continue;", "x = y in z;", "new.target;", "super.x;",
+		"arguments;", "let await;", "x = await;", "x = yield;", "x = async () => await y;", "this;", "for (x = y in z;;);", "x = await + 1;", "x = yield * 2;", "async function q(){ await 1 }", "function* q(){ yield 1 }", "let x = 1;", "break l;"}
+	for ci := range c03Contexts {
+		for _, kc := range constructs {
+			if kc == "for (var i = 0 in {};;) ;" {
+				continue // not valid; kept out (placeholder for the [In] family above)
+			}
+			for _, f := range follow {
+				k++
+				if !c.Mine(k) {
+					continue
+				}
+				for _, o := range jsOptionNames {
+					c.Exec(sib, []byte(kc), map[string]string{"opts": o, "ctx": strconv.Itoa(ci), "f": f})
+					c.Count("exec", 1)
+				}
+				c.Count("sibling-programs", 1)
+			}
 		}
 	}
 	for _, a := range redeclCases() {
